@@ -271,7 +271,9 @@ func ExploreGC(sc *Scenario, events int, shard, shards int, deadline time.Time, 
 			return v, p, nil
 		}
 		if events >= 2 {
-			for j := i + 1; j < n; j++ {
+			// second event within the next 48 statement positions (two collections close together:
+			// e.g. one inside the allocation of a node, one inside the linking that follows)
+			for j := i + 1; j < n && j <= i+48; j++ {
 				if v, p := run([]int{i, j}); v != nil {
 					return v, p, nil
 				}
